@@ -1,5 +1,6 @@
 /* C14: runs API call scripts against the real encoder / decoder, one forked child per script under a watchdog.
  * stdin: one script per line: "<id> <E|D> op op op ..."; output: "S <id> op=rc ... END <ok|signal N|timeout|exit N>" */
+#include "../no_rt.h"   /* ordinary threads instead of SCHED_FIFO/99 (see the header) */
 #include <stdio.h>
 #include <stdlib.h>
 #include <string.h>
